@@ -415,7 +415,8 @@ class ApplyHooks(AppHooks):
             return [inputs[p_] for p_ in perm]
         if isinstance(obj, Rec) and meth == "main":
             ident = kw.get("identifier")
-            eng.trace.append(("writer.main", ident))
+            data = kw.get("data")
+            eng.trace.append(("writer.main", ident, data.attrs.get("uid") if isinstance(data, Opaque) else None))
             if ident in self.main_fails_on:
                 eng.trace.append(("writer.main->", "raise"))
                 raise Raise("ValueError")
@@ -475,6 +476,9 @@ def run_apply_to(chk):
                     if not failed_here and p.outcome == "return":
                         note("post: every identifier not yet in the store is written exactly once, stored ones are skipped",
                              sorted(written) == sorted(new), info)
+                        pairs = [(t[1], t[2]) for t in tr if t[0] == "writer.main"]
+                        note("post: each result is written under the identifier of its own source, whatever the completion order",
+                             all(a == b for a, b in pairs), dict(info, text=info["text"] + f"; (identifier, source of data) pairs {pairs}"))
                     if p.outcome == "raise" and not failed_here:
                         note("post: apply_to raises only for an empty/duplicate input set", p.value in ("ValueError", "RuntimeError") and not new or p.value == "ValueError", info)
     _emit(chk, fn, agg, n)
